@@ -17,8 +17,11 @@ structure Item where
 section
 variable {α : Type} (o : GroupOps α) (prm : Params)
 
-/-- `rand = 1 if i == 0 else 1 + secrets.randbelow(ec.n - 1)` -/
-def coefAt (coef : Nat → Int) (i : Nat) : Int := if i = 0 then 1 else coef i
+/-- `rand = 1 if i == 0 else 1 + secrets.randbelow(ec.n - 1)`: the statement itself is TRANSLATED from the source
+    (`Gen.Schnorr.batch_rand i draw`, `draw` standing for what `secrets.randbelow` answered); `coef i` is the
+    coefficient of member `i ≥ 1`, i.e. `1 + draw`.  `Proofs/C03/Batch.lean: coefAt_eq` shows this is
+    `if i = 0 then 1 else coef i` — an edit of the statement in ssa.py breaks that lemma. -/
+def coefAt (coef : Nat → Int) (i : Nat) : Int := Gen.Schnorr.batch_rand (i : Int) (coef i - 1)
 
 /-- `for sig in sigs: sig.assert_valid()` -/
 def allSigValid : List Item → Except Err Unit
